@@ -50,6 +50,8 @@ def run(rep, tier):
     rep.rule("R12.6", "Table::Smooth writes only the interior and uses the (1/4, 1/2, 1/4) stencil")
     rep.rule("R12.7", "csg_resample: value and derivative tables come from the same spline object on grids generated from the same (min, step, max); flags start as 'o' and are copied from the matching input point")
     rep.rule("R12.8", "Spline::getInterval returns 0 below the first knot and size-2 above the last-but-one")
+    rep.rule("R12.9", "LinSpline::Fit: row i of the design matrix holds the hat-function weights of x_i on its own interval (they sum to 1 and "
+                      "reproduce x_i from the two knots), the unknowns are solved against y, and each piece passes through the fitted knot values")
     units = [front.repo("tools/src/libtools/" + u) for u in ("cubicspline.cc", "akimaspline.cc", "linspline.cc", "spline.cc", "table.cc")] + \
             [front.repo("csg/src/tools/csg_resample.cc")]
     F = Facts(front.export(units))
@@ -74,6 +76,46 @@ def run(rep, tier):
     rep.check(ok, "R12.1", "linear|interpolate", "piece i passes through (x_i,y_i) and (x_{i+1},y_{i+1})", "LinSpline::Interpolate: " + why, f.loc(), sample=True)
     f1, v = ret_of(F, T + "LinSpline::Calculate", env_by_param={"r": r})
     rep.check(is_zero(v - (gsym("a", I) * r + gsym("b", I))), "R12.1", "linear|calculate", "S(r) = a_I r + b_I", "LinSpline::Calculate returns %s" % v, f1.loc())
+
+    # ---------------------------------------------------------------- R12.9 linear fit
+    ff = F.one(T + "LinSpline::Fit")
+    rep.analysed(ff)
+    ffo = Fold(ff, call=grid_hook(), opaque_types=r"Eigen::Matrix<double, -1").run()
+    rows = [e for e in ffo.events if e["kind"] == "store" and e.get("idx") and len(e["idx"]) == 2 and not isinstance(e["value"], (tuple, sp.Matrix))]
+    ok, why = False, "expected two stores A(i, interval), A(i, interval+1) into the design matrix, found %d" % len(rows)
+    if len(rows) == 2:
+        rows.sort(key=lambda e: 0 if sp.expand(e["idx"][1] - I) == 0 else 1)
+        (i0, c0), (i1, c1) = rows[0]["idx"], rows[1]["idx"]
+        w0, w1 = rows[0]["value"], rows[1]["value"]
+        ok = i0 == i1 and sp.expand(c0 - I) == 0 and sp.expand(c1 - I - 1) == 0
+        why = "the two weights of point %s go to columns %s and %s, not interval and interval+1" % (i0, c0, c1)
+        if ok:
+            xi = gsym("x", i0)
+            ok = is_zero(w0 + w1 - 1) and is_zero(w0 * gsym("r", I) + w1 * gsym("r", I + 1) - xi)
+            why = "the weights %s, %s of point x_i on its interval [r_I, r_I+1] do not sum to one / do not reproduce x_i: data that lies in the spline space is not fitted exactly on a non-uniform grid" % (w0, w1)
+    rep.check(ok, "R12.9", "linear|fit-rows", "A(i,I) + A(i,I+1) = 1 and A(i,I) r_I + A(i,I+1) r_{I+1} = x_i", "LinSpline::Fit: " + why, ff.loc(rows[0]["node"] if rows else None), sample=True)
+    solv = [v for k_, v in ffo.final_env.items() if not isinstance(k_, tuple) and str(getattr(v, "func", "")) == "solve"]
+    ypar = ff.j["params"][1]["name"]
+    mats = {re.match(r"^(\w+)\(", e["target"]).group(1) for e in rows if re.match(r"^(\w+)\(", e["target"])}
+    def from_matrix(nm):
+        if nm in mats:
+            return True
+        dd = [d_ for d_ in ff.decls.values() if d_.get("name") == nm and d_.get("init") is not None]
+        return bool(dd) and any(x.get("k") == "ref" and x.get("name") in mats for x in walk(dd[0]["init"]))
+    ok = len(solv) == 1 and len(solv[0].args) == 2 and str(solv[0].args[1]) == ypar and from_matrix(str(solv[0].args[0]))
+    rep.check(ok, "R12.9", "linear|fit-solve", "knot values = least-squares solution of A u = y", "LinSpline::Fit solves %s (required: the design matrix against the y data)" % ([str(v) for v in solv] or "nothing"), ff.loc())
+    sta = [e for e in ffo.events if e["kind"] == "store" and re.match(r"^a[\(\[]", e["target"]) and any(isinstance(g_[0], tuple) and g_[0][0] == "loop" for g_ in e["guards"])]
+    stb = [e for e in ffo.events if e["kind"] == "store" and re.match(r"^b[\(\[]", e["target"]) and any(isinstance(g_[0], tuple) and g_[0][0] == "loop" for g_ in e["guards"])]
+    ok, why = False, "coefficient stores a(i), b(i) not found"
+    if len(sta) == 1 and len(stb) == 1:
+        a, b = sta[0]["value"], stb[0]["value"]
+        cands = loop_atom(a)
+        if len(cands) == 1:
+            i = S(cands.pop())
+            b = b.subs(gsym("a", i), a)
+            ok = is_zero(a * gsym("r", i) + b - gsym("sol", i)) and is_zero(a * gsym("r", i + 1) + b - gsym("sol", i + 1))
+            why = "a_i = %s, b_i = %s do not pass through the fitted knot values (r_i, u_i), (r_{i+1}, u_{i+1})" % (a, b)
+    rep.check(ok, "R12.9", "linear|fit-pieces", "piece i passes through the fitted values at r_i and r_{i+1}", "LinSpline::Fit: " + why, ff.loc(), sample=True)
 
     # ---------------------------------------------------------------- R12.2 cubic
     splinelib.check_cubic_interpolation(F, rep, "R12.2")
